@@ -11,6 +11,8 @@
 //!     x <u16> <7 record ints>    the path is unlinked and a NEW file (another inode: version 1, that generation, that
 //!                                record) is put there — a runtime directory that was not preserved; the writer and every
 //!                                attached client keep the old inode, later opens and pokes get the new one
+//!     r                          the daemon shuts down in an orderly way (its `ShmWriter` is dropped) and a new one starts on the
+//!                                same path (`ShmWriter::new`): a usable segment is taken over as it is
 //!     o | co                     (re)open the Rust client / the C context
 //!     q  <real_s> <real_ns> <mono_s> <mono_ns>    `ClockBoundClient::now()` on the long-lived client
 //!     cq <real_s> <real_ns> <mono_s> <mono_ns>    `clockbound_now()` on the long-lived C context
@@ -68,7 +70,7 @@ pub fn exec(line: &str) -> String {
     let _ = std::fs::remove_file(&path);
     let p = path.clone();
     let w = guarded(AssertUnwindSafe(move || ShmWriter::new(std::path::Path::new(&p)).expect("writer")));
-    let mut w = match w { Ok(w) => w, Err(_) => return "writer-panic".into() };
+    let mut w = match w { Ok(w) => Some(w), Err(_) => return "writer-panic".into() };
     let mut client: Option<ClockBoundClient> = None;
     let mut c_open = false;
     let mut out: Vec<String> = Vec::new();
@@ -78,8 +80,14 @@ pub fn exec(line: &str) -> String {
             "w" => {
                 let f = parse_ints(&t[1..]);
                 let rec = mk_record(&[f[0], f[1], f[2], f[3], f[4], f[5], 0, f[6]]);
-                let r = guarded(AssertUnwindSafe(|| w.write(&rec)));
+                let r = guarded(AssertUnwindSafe(|| w.as_mut().expect("writer").write(&rec)));
                 out.push(if r.is_ok() { "w".into() } else { "w panic".into() });
+            }
+            "r" => {
+                let old = w.take();
+                let p = path.clone();
+                let r = guarded(AssertUnwindSafe(move || { drop(old); ShmWriter::new(std::path::Path::new(&p)).expect("writer") }));
+                match r { Ok(nw) => { w = Some(nw); out.push("r".into()); } Err(_) => return format!("{} ; r panic", out.join(" ; ")) }
             }
             "g" => { poke_u16(&path, 14, parse_ints(&t[1..])[0] as u16); out.push("p".into()); }
             "v" => { poke_u16(&path, 12, parse_ints(&t[1..])[0] as u16); out.push("p".into()); }
@@ -276,6 +284,7 @@ pub fn gen_case(rng: &mut Rng) -> String {
                 for q in tmp { let (k, rest) = q.split_once(' ').unwrap(); ops.push(format!("{}w {} {} {}", k, rest, g, ws.strip_prefix("w ").unwrap())); }
                 rec = Some(r); gen_clean = true;
             }
+            9 if rng.chance(1, 2) && !ops.iter().any(|o| o.starts_with("x ")) => ops.push("r".into()),
             _ => gen_query(rng, &rec, &mut mono_now, &mut ops),
         }
     }
@@ -316,6 +325,11 @@ pub fn grid() -> Vec<String> {
     // was just stepped: the old reading is only covered by the OLD record's bound): the answer must come from the old record
     v.push(format!("session w 100 0 1100 0 12000000 50000 1 ; o ; co ; {} ; qw 1700000000 5 100 500 40 101 0 1101 0 50000 50000 1 ; cqw 1700000000 5 100 500 42 101 0 1101 0 50000 50000 1 ; {}", q(100, 5), q(101, 5)));
     v.push(format!("session w 100 0 1100 0 12000000 50000 1 ; o ; co ; qw 1700000000 5 100 500 40 101 0 1101 0 50000 50000 1 ; cqw 1700000000 5 100 500 42 101 0 1101 0 50000 50000 2 ; {} ; w 102 0 1102 0 7 1000 1 ; {}", q(101, 5), q(102, 5)));
+    // an orderly restart of the daemon between calls (also over a segment whose last update was cut short): the segment is taken over
+    // as it is, attached clients and new ones go on seeing the latest record, the generation carries on
+    v.push(format!("session w 100 0 1100 0 10000 50000 1 ; o ; co ; {} ; r ; {} ; o ; co ; {} ; w 102 0 1102 0 7 1000 2 ; {} ; r ; r ; {}", q(100, 5), q(101, 5), q(101, 6), q(102, 5), q(103, 5)));
+    v.push(format!("session w 100 0 1100 0 10000 50000 1 ; w 101 0 1101 0 20000 50000 1 ; o ; co ; {} ; g 5 ; r ; {} ; w 102 0 1102 0 7 1000 2 ; {} ; r ; w 103 0 1103 0 8 1000 1 ; {}", q(101, 5), q(101, 6), q(102, 5), q(103, 5)));
+    v.push(format!("session w 100 0 1100 0 10000 50000 1 ; o ; co ; {} ; w 101 0 1101 0 20000 50000 0 ; r ; {} ; w 102 0 1102 0 7 1000 1 ; w 103 0 1103 0 7 1000 1 ; r ; {}", q(100, 5), q(101, 6), q(103, 5)));
     // no publication yet: open must fail (generation 0)
     v.push(format!("session o ; co ; {} ; w 100 0 1100 0 10000 50000 1 ; o ; co ; {}", q(100, 5), q(100, 6)));
     v
